@@ -22,7 +22,10 @@ RULE = ("case = history of 3-12 transactions on a fresh chain, each delivered in
         "that executions end in every way: success, REVERT, abort, out of gas (in the code, at the code deposit), refused "
         "for lack of funds for the value BEFORE the EVM touches the nonce (a poor sender whose gas prepayment at the base "
         "fee eats what the value needs; an earlier message of the same tx and sender spending it), message failure after "
-        "admission; the very same signed transaction delivered again (at once and later); eth leaves "
+        "admission; the very same signed transaction delivered again (at once and later); all three transaction TYPES — "
+        "legacy, access-list (EIP-2930, empty list and one address + key), dynamic-fee — each at named prices below / at / above "
+        "the base fee incl. 0 and 1 wei (type 2: fee cap below the base fee, tip = cap) with leftover gas and other payers in the "
+        "same tx; the unsigned wrapper fee is filled in with the code's own EffectiveFeeWei as the JSON-RPC layer does; eth leaves "
         "whose unsigned From field names the tx signer / an exec grantee / the contract; Cosmos txs "
         "whose message trees (depth <= 5: authz MsgExec with self/grant authority, reflect.wasm Stargate dispatch, gov "
         "MsgSubmitProposal) carry a MsgEthereumTx, MsgGrant for the eth type, sends; Cosmos txs signed with an "
@@ -67,11 +70,21 @@ def _intrinsic(create, data_hex):
     return 21000 + (32000 if create else 0) + sum(4 if b == 0 else 16 for b in bs)
 
 
+TY_INTRINSIC = {"": 0, "al": 0, "al1": 2400 + 1900}  # access list: 2400 per address + 1900 per storage key
+
+
+def _ty(n):
+    if n.get("cap"):
+        return "TDynamic"
+    return "TAccess" if n.get("ty") else "TLegacy"
+
+
 def _xinfo(n):
     create, data, ex, out = PROGS[n.get("prog", "")]
     cap = n.get("cap") or n.get("price") or "1000000000000"
-    return "{| x_kind := %s; x_cap := %s; x_intr := %s; x_exec := %s; x_out := %s |}" % (
-        "XCreate" if create else "XCall", _z(cap), _z(_intrinsic(create, data)), _z(ex), out)
+    raw = "(raw_dynamic %s %s)" % (_z(n["cap"]), _z(n.get("tip") or "0")) if n.get("cap") else _z(cap)
+    return "{| x_kind := %s; x_ty := %s; x_raw := %s; x_cap := %s; x_intr := %s; x_exec := %s; x_out := %s |}" % (
+        "XCreate" if create else "XCall", _ty(n), raw, _z(cap), _z(_intrinsic(create, data) + TY_INTRINSIC[n.get("ty", "")]), _z(ex), out)
 
 
 def _val(n):
@@ -156,7 +169,7 @@ def nontrivial(rec):
             return True
         if ext == "evm" and len(tx["msgs"]) > 1:
             return True
-        if ext == "evm" and any(d == 0 and (n.get("prog") or n.get("val") not in (None, "", "1")) for n, d, _ in es):
+        if ext == "evm" and any(d == 0 and (n.get("ty") or n.get("prog") or n.get("val") not in (None, "", "1")) for n, d, _ in es):
             return True
         for n, d, ws in es:
             pr = int(n.get("cap") or n.get("price") or 10**12)
@@ -168,7 +181,7 @@ def nontrivial(rec):
 def _exec_class(n, e):
     """how one fired Ethereum message ended, from the input descriptor and the reported gas / VM error"""
     create, data, ex, out = PROGS[n.get("prog", "")]
-    intr = _intrinsic(create, data)
+    intr = _intrinsic(create, data) + TY_INTRINSIC[n.get("ty", "")]
     kind = "create" if create else ("call" if n.get("prog", "").startswith("k-") else "transfer")
     if not e["failed"]:
         return "exec:%s ok" % kind
@@ -203,6 +216,10 @@ def classify(rec):
             if d == 0 and tx.get("ext") == "evm":
                 pr = int(n.get("cap") or n.get("price") or 10**12)
                 ks.append("evm-leaf price:%s %s gas:%s" % ("dynamic" if n.get("cap") else "legacy", "whole-unibi" if pr % 10**12 == 0 else "odd-wei", n.get("gas")))
+                raw = min(10**12 + int(n.get("tip") or 0), int(n["cap"])) if n.get("cap") else pr
+                band = "below-base-fee" if raw < 10**12 else ("at-base-fee" if raw == 10**12 else "above-base-fee")
+                ks.append("evm-leaf type:%s named-price:%s%s%s" % (_ty(n)[1:], band, " (0 or 1 wei)" if raw <= 1 else "",
+                                                                 " leftover-gas" if ob["ok"] and n.get("gas", 0) > 21000 + TY_INTRINSIC[n.get("ty", "")] and not n.get("prog") else ""))
     return ks
 
 
@@ -326,6 +343,9 @@ SWEEP_INPUTS = [
     {"txs": [_evm(_eth(20, 0)), _cos(0, _wa(_ex(10, _eth_as(10, 20, 0))))]},
     {"txs": [_evm(_eth(20, 0)), _cos(1, _ex(1, _eth_as(1, 20, 0)))]},
     {"txs": [_evm(_eth(20, 0)), _cos(1, _eth_as(1, 20, 0))]},
+    {"txs": [_evm(dict(_eth(20, 0), price="5000000000000"), dict(_eth(21, 0, 100000), price="1", ty="al"))]},
+    {"txs": [_evm(dict(_eth(20, 0), price="5000000000000"), dict(_eth(21, 0, 100000), price="1"))]},
+    {"txs": [_evm(dict(_eth(20, 0), price="5000000000000"), dict(_eth(21, 0, 100000), cap="1", tip="1"))]},
     {"txs": [_evm(_ethx(23, 0, 100000, "350000", "c-stop"))] * 2},
     {"txs": [_evm(_ethx(23, 0, 100000, "350000", "k-stop"))] * 2},
     {"txs": [_evm(_ethx(20, 0, 100000, "7", "c-revert"))] * 2},
